@@ -519,3 +519,58 @@ def idx_r8(ctx):
                   "Ord and PartialEq are derived (lexicographic on all fields), so sort+dedup is a function of the multiset",
                   got=tr, key="derived-ord")
     ctx.floor("element types", n, 3)
+
+
+def idx_r9(ctx):
+    """the six lookups of IndexedInstruments are mutual inverses by construction: name -> index returns the KEY of the
+    element whose own fields equal the needles, index -> name returns the VALUE of the element whose own key equals the
+    index - both as 'first match' over the full vector (never a position inside a filtered view)"""
+    want = {
+        "find_exchange_index": ("delegate", "index::find_exchange_by_exchange_id(self.exchanges, exchange)"),
+        "find_asset_index": ("delegate", "index::find_asset_by_exchange_and_name_internal(self.assets, exchange, name)"),
+        "find_instrument_index": ("first", ("self.instruments", ["eq($x.value.exchange.value, exchange)", "eq($x.value.name_internal, name)"], "$x.key")),
+        "find_exchange": ("first", ("self.exchanges", ["eq($x.key.0, index.0)"], "$x.value")),
+        "find_asset": ("first", ("self.assets", ["eq($x.key.0, index.0)"], "$x.value")),
+        "find_instrument": ("first", ("self.instruments", ["eq($x.key.0, index.0)"], "$x.value")),
+    }
+    n = 0
+    for fn, (kind, w) in sorted(want.items()):
+        b = ctx.fibody(name=fn, self_adt=II, trait="")
+        cases = b.expanded_cases(0)
+        if kind == "delegate":
+            got = [render(t) for g, t, bi in cases]
+            ok = got == [w]
+        else:
+            oks = [t for g, t, bi in cases if t[0] == "agg" and t[1].endswith("Result::Ok")]
+            rest = [t for g, t, bi in cases if not (t[0] == "agg" and t[1].endswith(("Result::Ok", "Result::Err")))]
+            fm = common.first_match(ctx, oks[0][3][0]) if len(oks) == 1 and not rest else None
+            got = fm
+            ok = fm is not None and (fm[0], sorted(fm[1]), fm[2]) == (w[0], sorted(w[1]), w[2])
+        n += 1
+        ctx.check("IndexedInstruments::" + fn, ok, "lookup = first element of the FULL vector whose own fields equal the needle(s); "
+                  "returns that element's own key (name -> index) / value (index -> name)", got=got, want=w, key="lookup")
+    ctx.floor("IndexedInstruments lookups", n, 6)
+
+
+def idx_r10(ctx):
+    """registration completeness: add_instrument hands the builder the instrument, its exchange and EVERY asset it refers to
+    (base, quote, settlement asset if any, order-quantity unit asset if any) - an asset that is not registered gets no index
+    and cannot be resolved by build()"""
+    B = "barter_instrument::index::builder::IndexedInstrumentsBuilder"
+    b = ctx.fibody(name="add_instrument", self_adt=B, trait="")
+    got = sorted((render(tm), common.canon_guard(b.guard(bi))) for bi, t, tm in b.real_calls() if b.mut_args(t))
+    ex = "instrument.exchange"
+    st = "InstrumentKind::settlement_asset(instrument.kind)"
+    want = sorted([
+        ("Vec::push(self.exchanges, %s)" % ex, "true"),
+        ("Vec::push(self.assets, ExchangeAsset::new(%s, instrument.underlying.base))" % ex, "true"),
+        ("Vec::push(self.assets, ExchangeAsset::new(%s, instrument.underlying.quote))" % ex, "true"),
+        ("Vec::push(self.assets, ExchangeAsset::new(%s, %s.as:Some.0))" % (ex, st), "(%s is Some)" % st),
+        ("Vec::push(self.assets, ExchangeAsset::new(%s, instrument.spec.as:Some.0.quantity.unit.as:Asset.0))" % ex,
+         "(instrument.spec is Some && instrument.spec.as:Some.0.quantity.unit is Asset)"),
+        ("Vec::push(self.instruments, instrument)", "true"),
+    ])
+    ctx.check("IndexedInstrumentsBuilder::add_instrument", got == want,
+              "registers the exchange, the instrument and each of: base, quote, settlement asset (when the kind has one), "
+              "quantity-unit asset (when the spec names one) - each under the instrument's own exchange, independently of the others",
+              got=got, want=want, key="registers-all")
